@@ -98,7 +98,7 @@ func (ex *Exec) scanWrites(fn *ssa.Function, blocks map[*ssa.BasicBlock]bool, ws
 
 func (ex *Exec) scanCallWrites(c *ssa.CallCommon, ws *writeSet, depth int, seen map[*ssa.Function]bool) {
 	if c.IsInvoke() {
-		if fc := ex.eng.externs[c.Method.FullName()]; fc != nil {
+		if fc := ex.externFor(c.Method.FullName()); fc != nil {
 			ex.scanContractWrites(fc, nil, ws)
 		}
 		return
@@ -141,7 +141,7 @@ func (ex *Exec) scanFuncWrites(fn *ssa.Function, ws *writeSet, depth int, seen m
 		return
 	}
 	if fo, ok := fn.Object().(*types.Func); ok {
-		if fc := ex.eng.externs[fo.FullName()]; fc != nil {
+		if fc := ex.externFor(fo.FullName()); fc != nil {
 			ex.scanContractWrites(fc, fn, ws)
 		}
 	}
@@ -225,6 +225,13 @@ func (ex *Exec) resolveTargets(tc *TrCtx, mods []ModTarget) ([]modTarget, map[st
 		expanded = append(expanded, m)
 	}
 	for _, m := range expanded {
+		if m.Ghost != "" {
+			if !ex.eng.isGhost(m.Ghost) {
+				trFail("unknown ghost variable %s", m.Ghost)
+			}
+			whole[ghostKey(m.Ghost)] = true
+			continue
+		}
 		if m.Heap != nil {
 			t := tc.resolveType(m.Heap)
 			if p, ok := t.Underlying().(*types.Pointer); ok {
@@ -327,6 +334,10 @@ func (ex *Exec) applyHavoc(st *State, ts []modTarget, whole map[string]bool) {
 	S := ex.eng.S
 	vc := ex.vc
 	for _, k := range sortedKeys(whole) {
+		if g, ok := ghostOfKey(k); ok {
+			st.ghosts[g] = TVal{vc.fresh("gh_"+g, "Bool"), tBool}
+			continue
+		}
 		st.heaps[k] = vc.fresh("hv_"+k, vc.heapSorts[k])
 	}
 	for _, t := range ts {
@@ -476,6 +487,9 @@ func (fr *Frame) loopCtx(li *loopInfo, st *State) *TrCtx {
 	}
 	// ghosts of enclosing loops by ordinal
 	for name, g := range st.ghosts {
+		if ex.eng.isGhost(name) {
+			continue // global ghosts are state-dependent: resolved through the state, so that old() works
+		}
 		tc.vars[name] = g
 	}
 	for _, l2 := range fr.loops {
@@ -669,6 +683,10 @@ func (fr *Frame) enterLoop(li *loopInfo, cur *State) *State {
 		ex.applyHavoc(h, lsTargets, lsWhole)
 	} else {
 		for _, k := range sortedKeys(ws.heaps) {
+			if g, ok := ghostOfKey(k); ok {
+				h.ghosts[g] = TVal{vc.fresh("gh_"+g, "Bool"), tBool}
+				continue
+			}
 			h.heaps[k] = vc.fresh("hl_"+k, vc.heapSorts[k])
 		}
 	}
@@ -881,7 +899,7 @@ func (ex *Exec) paramReadOnly(fn *ssa.Function, idx int, depth int) bool {
 		return true
 	}
 	if fo, ok := fn.Object().(*types.Func); ok {
-		if fc := ex.eng.externs[fo.FullName()]; fc != nil {
+		if fc := ex.externFor(fo.FullName()); fc != nil {
 			return fc.Pure || (!fc.HavocAll && len(fc.Modifies) == 0)
 		}
 	}
@@ -917,6 +935,26 @@ func modifiesParam(fc *FuncContract, name string) bool {
 			if id, ok := e.X.(*EIdent); ok && id.Name == name && !m.MapOf {
 				return true
 			}
+		}
+	}
+	return false
+}
+
+// ---------------------------------------------------------------- global ghost variables
+
+func ghostKey(name string) string { return "ghost:" + name }
+
+func ghostOfKey(k string) (string, bool) {
+	if strings.HasPrefix(k, "ghost:") {
+		return k[len("ghost:"):], true
+	}
+	return "", false
+}
+
+func (e *Engine) isGhost(name string) bool {
+	for _, g := range e.cs.Ghosts {
+		if g == name {
+			return true
 		}
 	}
 	return false
